@@ -1,5 +1,60 @@
-(* C06 - under construction *)
+(* C06 -- no client input can crash, kill, corrupt or wedge the daemon: the client layer (client.c _parse_input,
+   _create_command, _act_finish and the callbacks) over ARBITRARY input lines.
+   Theorems about PM.Model.Client / PM.Model.CliWorld (tied to the source by Gen/GenConsts.v, Gen/GenClient.v and R-CLIENT).
+   The host-list parser behind `expand_str` is C14's (F1 F2 F3 F33 repaired there); line extraction from the input
+   cbuf is C09's model (Model/Cbuf.v) and is not repeated here. *)
 From Coq Require Import List NArith ZArith Bool.
-From PM Require Import Base.Bytes Base.Outcome Gen.GenConsts Model.Client.
-Example C06_classify_example : classify (bslit "on t1") = RCommand PM_POWER_ON (Some (bslit "t1")).
-Proof. vm_compute. reflexivity. Qed.
+From PM Require Import Base.Bytes Base.Outcome Gen.GenConsts Gen.GenClient Model.ScriptAst Model.Enqueue Model.Script Model.Client Model.CliWorld
+                       Spec.Proto Proofs.ClientProto Proofs.ClientStream Proofs.ClientTotal Proofs.ClientIsolation Proofs.ClientExamples.
+Import ListNotations.
+Local Open Scope Z_scope.
+
+(* Whatever byte strings any number of clients send as lines, in whatever order connections, lines, disconnects and
+   the completions / callbacks / Arg writes of the queued actions occur: the client layer never reaches an assert or
+   an exit (outcome Ok), for every total host-list oracle; and the invariant `winv` (per client: pending = number of
+   its queued actions > 0, a valid command code, its own fresh arglist slot; distinct client ids) holds throughout.
+   `_act_finish`'s assert(c->cmd != NULL) is thereby unreachable.  Hypothesis: fewer than 2^31 - 1 connections
+   (the id counter does not wrap). *)
+Theorem C06_client_layer_total : forall expand_str ranged_sorted ranged_plain sorted evs w,
+  winv w -> w_next w + Z.of_nat (connects evs) <= CLI_ID_MAX ->
+  exists w', wrun expand_str ranged_sorted ranged_plain sorted w evs = Ok w' /\ winv w'.
+Proof. exact world_total. Qed.
+Example C06_total_nonvacuous : winv (world0 toy_conf) /\ CLI_ID_FIRST + Z.of_nat (connects wevs) <= CLI_ID_MAX
+  /\ is_ok (wrun toy_expand toy_join toy_join toy_sorted (world0 toy_conf) wevs) = true.
+Proof. split; [apply winv0|]. split; vm_compute; [discriminate|reflexivity]. Qed.
+Print Assumptions C06_client_layer_total.
+
+(* every line is answered by exactly one terminal line, at once (terminals = 1) or - when it queued a command - at
+   that command's last completion (C15_stream counts them over whole histories); a line sent while a command is
+   pending queues nothing and allocates nothing *)
+Theorem C06_one_reply_per_line : forall expand_str ranged_sorted ranged_plain sorted cf store c line,
+  cmd_inv c ->
+  exists cf' store' c' q d,
+    parse_input expand_str ranged_sorted ranged_plain sorted cf store c line = (cf', store', c', q)
+    /\ cl_out c' = cl_out c ++ render d
+    /\ (terminals d + b2n (busy c') = 1 + b2n (busy c))%nat
+    /\ (busy c = true -> q = [] /\ store' = store)
+    /\ cmd_inv c'.
+Proof. exact line_one_reply. Qed.
+Example C06_one_reply_nonvacuous :
+  out_of (run1 toy_expand toy_join toy_join toy_sorted toy_s0 [ELine ([255; 254; 0]%N ++ bslit "on n1")]) = bslit "001 2.4" ++ CP_EOL ++ CP_PROMPT ++ CP_ERR_UNKNOWN ++ CP_PROMPT
+  /\ out_of (run1 toy_expand toy_join toy_join toy_sorted toy_s0 [ELine (bslit "on n[")]) = bslit "001 2.4" ++ CP_EOL ++ CP_PROMPT ++ bslit "205 Hostlist error: invalid range" ++ CP_EOL ++ CP_PROMPT.
+Proof. split; [vm_compute; reflexivity|exact (proj1 (proj2 (proj2 ex_refusals)))]. Qed.
+Print Assumptions C06_one_reply_per_line.
+
+(* bounded-buffer obligation of _parse_input: the length gate (regenerated from the source: LINE_GATE) precedes every
+   sscanf("%s") into arg1[ARG1_SIZE]; the word of every request that carries one, plus its NUL, fits *)
+Theorem C06_arg1_fits : forall s a,
+  (exists com, classify s = RCommand com (Some a)) \/ classify s = RDevice (Some a) ->
+  Z.of_nat (length a) + 1 <= ARG1_SIZE.
+Proof. exact arg1_fits. Qed.
+Theorem C06_buffer_declarations :
+  LINE_GATE = CP_LINEMAX /\ LINE_GATE <= ARG1_SIZE /\ INBUF_SIZE = MAX_CLIENT_BUF /\ CP_LINEMAX < INBUF_SIZE.
+Proof. exact buffer_declarations. Qed.
+Example C06_classify_example :
+  classify (bslit "on t1") = RCommand PM_POWER_ON (Some (bslit "t1")) /\ classify (bslit "STATUS") = RCommand PM_STATUS_PLUGS None
+  /\ classify (bslit "statusx") = RCommand PM_STATUS_PLUGS (Some (bslit "x")) /\ classify (bslit "on") = RUnknown /\ classify (bslit "device  n1 x") = RDevice (Some (bslit "n1"))
+  /\ classify (bslit "On t1") = RUnknown /\ classify (bslit "QUIT now") = RQuit /\ classify [] = RUnknown.
+Proof. vm_compute. repeat split; reflexivity. Qed.
+Print Assumptions C06_arg1_fits.
+Print Assumptions C06_buffer_declarations.
